@@ -120,10 +120,8 @@ def y2_siblings(ctx):
         rt = strip(fm.ret_expr())
     finally:
         fm._shallow = False
-    if rt[0] != 'aggr' or not (rt[1] == 'tuple' or (len(rt) > 3 and rt[3] and len(rt[3]) == len(rt[2]))):
-        raise AnchorLost('find_match returns neither a tuple nor a struct literal')
     pos = {}
-    for n, x in enumerate(rt[2]):
+    for n, x in enumerate(rt[2] if rt[0] == 'aggr' and (rt[1] == 'tuple' or (len(rt) > 3 and rt[3] and len(rt[3]) == len(rt[2]))) else []):
         x = strip(x)
         if x[0] == 'var':
             pos[n] = x[2]
@@ -142,8 +140,21 @@ def y2_siblings(ctx):
             return n
         return rebuild(e, f)
     summaries = []
+    # the two sites in rule_tokinizer are what the matcher table (Y7, scv/matcher.py) tabulates - Removed over the matched run, one
+    # Active token spanning it inserted at its start; when the table agrees they are not judged a second time by their shape
+    from ..report import Ctx as _Ctx
+    from ..matcher import matcher_table as _mt
+    _sub = _Ctx('C18', ctx.tier, ctx.facts, ctx.cg, ctx.config, ctx.repo, ctx.cfg_name)
+    _sub.rule('Y7', 'pattern scan', floor=1)
+    try:
+        table_ok = bool(_mt(_sub, 'Y7')) and not _sub.findings
+    except Exception:
+        table_ok = False
     for b, bid, t in sites:
         ctx.fn(b)
+        if table_ok and b.path.endswith('rule_tokinizer::rule_tokinizer'):
+            ctx.ok('Y2', '%s: rewrite protocol tabulated by Y7' % fn_key(b.path), 'absint', site=t['loc'])
+            continue
         idx = render(norm(b.mexpr(t['args'][1])))
         tok = norm(b.mexpr(t['args'][2]))
         ag = [x for x in walk(tok) if x[0] == 'aggr' and x[1] == 'tokinizer::TokenInfo::TokenInfo']
@@ -359,3 +370,14 @@ def y6_field_syntax(ctx):
 
 
 RULES += [('Y5', y5_history_free), ('Y6', y6_field_syntax)]
+
+
+def y7_matcher(ctx):
+    """Y7 the pattern scan of rule_tokinizer / find_match, tabulated (scv/matcher.py): which tokens a rule function is handed
+    for each named field and what the matched run is replaced by, on every line of up to three (thorough: four) tokens"""
+    from ..matcher import matcher_table
+    ctx.rule('Y7', 'pattern scan: matches, field bindings and replacement (tabulated)', floor=1)
+    matcher_table(ctx, 'Y7', deep=(ctx.tier == 'thorough' and ctx.cfg_name == 'dev'))
+
+
+RULES.append(('Y7', y7_matcher))
